@@ -240,6 +240,28 @@ func runC15(c *core.Ctx) *core.Outcome {
 	for _, g := range [][]byte{{0x00}, {0x00, 0x0d}, {0xff}, {0x00, 0x03, 0x02}, {0x00, 0x03, 0x02, 0x61, 0x62, 0x05}, {0x00, 0x08, 0x01}, {0x00, 0x07, 0x00}} {
 		check("append", fmt.Sprintf("%x appended", g), append(append([]byte(nil), good...), g...))
 	}
+	// the same damages at the end of a LONG record: a drawn number of complete valid instructions (a
+	// CATCH on a flag that is never set does nothing) in front of the program. Neither reader may stop
+	// looking after some number of instructions.
+	if t.Chance(1, 2) {
+		n := []int{300, 1000, 1023, 1024, 1025, 2500, 9000, 70000}[t.Int(8)]
+		var pre []app.Inst
+		for i := 0; i < n; i++ {
+			pre = append(pre, app.Inst{Op: app.CATCH, A: "nb", N: 8 + uint32((int(flagA)-8+1)%3), M: true})
+		}
+		pb := app.EncodeAll(pre)
+		o.Probes["long_prefix"]++
+		o.Probes[fmt.Sprintf("long_prefix_%d_instructions", n)]++
+		long := func(tail []byte) []byte { return append(append([]byte(nil), pb...), tail...) }
+		check("append", fmt.Sprintf("nothing, behind %d valid instructions", n), long(good))
+		for i := 0; i < 3; i++ {
+			k := t.Range(1, len(good)-1)
+			check("truncate", fmt.Sprintf("truncation to %d of %d bytes behind %d valid instructions", k, len(good), n), long(good[:k]))
+		}
+		check("append", fmt.Sprintf("ffff appended behind %d valid instructions", n), long([]byte{0xff, 0xff}))
+		check("append", fmt.Sprintf("0003 02 appended behind %d valid instructions", n), long([]byte{0x00, 0x03, 0x02}))
+		check("truncate", fmt.Sprintf("a cut in the last of %d valid instructions", n), pb[:len(pb)-1])
+	}
 	o.Nontrivial = malformed > 0
 	o.TraceHash = h64(fmt.Sprintf("%x", good), o.Counts["damages"], malformed)
 	o.Counts["sim_ticks"] = o.Counts["requests"]
